@@ -449,14 +449,16 @@ class SanitizeModel(GraphModel):
             return None
         from ..flow import LoopCtx, Out, truth
         assigned = {n.id for n in ast.walk(node) if isinstance(n, ast.Name) and isinstance(n.ctx, ast.Store)}
+        # the accumulator: a boolean flag, or a counter starting at 0 (read through its truth value)
         flags = [n for n in assigned if T.is_const(st.var(fr.fid, n, ('unk',))) and
-                 isinstance(st.var(fr.fid, n)[1], bool)]
+                 (isinstance(st.var(fr.fid, n)[1], bool) or st.var(fr.fid, n)[1] == 0)]
         key = ip.loop_key(node, fr)
         elem = T.mk(('elem', it, key))
         for f in flags:
             rows = []
+            counter = not isinstance(st.var(fr.fid, f)[1], bool)
             for fin in (False, True):
-                b = st.with_var(fr.fid, f, ('const', fin))
+                b = st.with_var(fr.fid, f, (('pos',) if fin else ('const', 0)) if counter else ('const', fin))
                 sc = Out()
                 bs = ip.assign(node.target, elem, b, fr, sc, node)
                 ctx = LoopCtx('for', node, it, elem, key, node.target)
@@ -473,7 +475,7 @@ class SanitizeModel(GraphModel):
                     rows.append((fin, new, ft, x))
                 if r.brk or r.ret or r.exc:
                     rows.append((fin, None, None, None))
-            self.tables.append((f, st.var(fr.fid, f)[1], rows, node))
+            self.tables.append((f, bool(st.var(fr.fid, f)[1]), rows, node))
         return None
 
 
@@ -512,6 +514,47 @@ def _is_meet(v, cur, members):
             and _is_dangling(v[3][0], cur, members):
         return True
     return False
+
+
+def _count_truth(t, st, okv):
+    """truth value of a counter term: is it non-zero? (None when it cannot be told). A nested sanitize() result
+    added to a count contributes 1 when it is True (`nothing had to be removed`) and 0 when False."""
+    from ..flow import truth
+    if t[0] == 'const':
+        return bool(t[1])
+    if t[0] == 'pos':
+        return True
+    if t[0] == 'mcall' and t[2] == 'sanitize':
+        return okv
+    if t[0] == 'unop' and t[1] == 'not':
+        v = _count_truth(t[2], st, okv)
+        return None if v is None else (not v)
+    if t[0] == 'call' and t[1] in ('int', 'bool') and len(t[2]) == 1:
+        return _count_truth(t[2][0], st, okv)
+    if t[0] == 'binop' and t[1] == 'Sub':
+        # a difference of two sizes is non-zero exactly when they differ
+        for op, pol in (('!=', True), ('==', False)):
+            for a, b in ((t[2], t[3]), (t[3], t[2])):
+                v = st.facts.get(T.mk(('cmp', op, a, b)))
+                if v is not None:
+                    return v if pol else (not v)
+        return None
+    if t[0] == 'binop' and t[1] == 'Add':
+        a, b = _count_truth(t[2], st, okv), _count_truth(t[3], st, okv)
+        if a or b:
+            return True
+        if a is False and b is False:
+            return False
+        return None
+    if t[0] == 'acc':
+        vals = [_count_truth(t[1], st, okv)] + [_count_truth(x, st, okv) for x in t[2]]
+        if any(v is True for v in vals):
+            return True
+        if all(v is False for v in vals):
+            return False
+        return None
+    v = truth(t, st)
+    return v
 
 
 def sanitize_rules(ctx, rep, r1, r2, r3, r4):
@@ -648,6 +691,8 @@ def sanitize_rules(ctx, rep, r1, r2, r3, r4):
                         continue
                 from ..flow import truth
                 fo = truth(ft, y)
+                if fo is None:
+                    fo = _count_truth(ft, y, okv)
                 if fo is None:
                     rep.error(r4, "value of `%s` after one member not decidable: %s" % (flag, T.show(ft, 4)))
                     continue
